@@ -371,6 +371,20 @@ class CallsMixin:
                 return args[2]
         return self.getattr(args[0], attr, node)
 
+    def b_setattr(self, args, kwargs, node):
+        name = simp(args[1].t)
+        if not z3.is_string_value(name):
+            raise Unsupported('setattr with symbolic attribute name')
+        base = args[0]
+        if not (isinstance(base, V) and isinstance(base.kind, K.Ref)):
+            raise Unsupported('setattr on %r' % (base,))
+        key, fk = self.heap_key(base.kind.cls, name.as_string())
+        if key is None:
+            raise Unsupported('setattr of undeclared field %s.%s' % (base.kind.cls, name.as_string()))
+        self.heap_write(base, key, fk, self.coerce_checked(args[2], fk, 'setattr@%s: value not None' % node.lineno, node))
+        self.p.written.add(key)
+        return K.NONE
+
     def b_hasattr(self, args, kwargs, node):
         name = simp(args[1].t)
         if not z3.is_string_value(name):
